@@ -203,7 +203,20 @@ type stop struct {
 	cmd   string // command issued for this stop
 }
 
+// after the first inconclusive case the shard is going to be reported as inconclusive anyway: the remaining cases
+// are not run (every further one could cost another bound)
+var gaveUp atomic.Bool
+
+func inconclusive(reason string) {
+	gaveUp.Store(true)
+	hx.Inconclusive(reason)
+}
+
 func runCase(c Case) (fail *hx.Failure) {
+	if gaveUp.Load() {
+		hx.E.Exclude("not-run.after-inconclusive")
+		return nil
+	}
 	// sink variants run on pool workers: a panic there (or a runtime abort anywhere) kills the process;
 	// the case is written ahead so that the driver can report it (crash:inflight)
 	hx.WriteInflight(c)
@@ -417,7 +430,7 @@ func runCase(c Case) (fail *hx.Failure) {
 				}
 			}
 			if !finished && time.Since(lastProgress) > stuckBound+20*time.Second {
-				hx.Inconclusive("c15.session-did-not-finish")
+				inconclusive("c15.session-did-not-finish")
 				return nil
 			}
 		}
@@ -577,11 +590,18 @@ func runStopAll(c Case) (fail *hx.Failure) {
 	defer s.Uninstall()
 	var mu sync.Mutex
 	resumed := map[uint64]int{}
+	nSuspend, nResumed := 0, 0 // passages of the hook points, whatever thread id the thread presents
 	s.Observer = func(point string, args []interface{}) {
+		if point == "debug.suspend" {
+			mu.Lock()
+			nSuspend++
+			mu.Unlock()
+		}
 		if point == "debug.resumed" && len(args) > 0 {
 			if tid, ok := args[0].(uint64); ok {
 				mu.Lock()
 				resumed[tid]++
+				nResumed++
 				mu.Unlock()
 			}
 		}
@@ -620,15 +640,26 @@ func runStopAll(c Case) (fail *hx.Failure) {
 				susp = append(susp, tid)
 			}
 		}
-		if len(susp) >= c.StopAll {
+		mu.Lock()
+		atWait := nSuspend - nResumed
+		mu.Unlock()
+		if len(susp) >= c.StopAll || atWait >= c.StopAll {
 			break
 		}
 		time.Sleep(200 * time.Microsecond)
 	}
-	if len(susp) < c.StopAll {
+	mu.Lock()
+	atWait := nSuspend - nResumed
+	mu.Unlock()
+	if len(susp) < c.StopAll && atWait < c.StopAll {
 		hx.ClearInflight()
-		hx.Inconclusive("c15.stopall-not-all-suspended")
+		inconclusive("c15.stopall-not-all-suspended")
 		return nil
+	}
+	if len(susp) < c.StopAll {
+		// all invocations have gone to their wait (hook passages) but status shows fewer suspended threads: several
+		// of them present the same thread id. StopThreads has to release every one of them all the same.
+		hx.E.Class("stopall.suspended-threads-share-an-id", 1)
 	}
 	time.Sleep(2 * time.Millisecond) // let them reach their waits (a thread still before its wait is the C15 lost-continue window, covered elsewhere)
 	mu.Lock()
@@ -636,6 +667,8 @@ func runStopAll(c Case) (fail *hx.Failure) {
 	for _, tid := range susp {
 		before[tid] = resumed[tid]
 	}
+	waiting := nSuspend - nResumed
+	resumedBefore := nResumed
 	mu.Unlock()
 	var released bool
 	if f := hx.Guard(func() { released = inner.StopThreads(0) }); f != nil {
@@ -651,9 +684,18 @@ func runStopAll(c Case) (fail *hx.Failure) {
 				left++
 			}
 		}
+		gone := nResumed - resumedBefore
 		mu.Unlock()
-		if left == len(susp) {
+		if left == len(susp) && gone >= waiting {
 			break
+		}
+		if left == len(susp) && time.Since(start) > stuckBound && s.ActiveHolds() == 0 {
+			hx.ClearInflight()
+			if stuckBound > 3*time.Second {
+				stuckBound = 3 * time.Second
+			}
+			return hx.Failf("stopthreads-leaves-thread-suspended", "%d sink invocations were waiting at the breakpoint (passages of the suspend hook; status showed %d suspended thread ids); %v after StopThreads (returned %v) only %d of them have left their wait\n%s",
+				waiting, len(susp), time.Since(start).Round(time.Millisecond), released, gone, src)
 		}
 		if time.Since(start) > stuckBound && s.ActiveHolds() == 0 {
 			hx.ClearInflight()
